@@ -669,55 +669,66 @@ def fastGet (own : Option Elem) : Option Val :=
 
 def flagIs (o : Option Bool) (b : Bool) : Bool := o == some b
 
-/-- object.go:650–751 for string/index keys, values compared by identity (`SameAs` on opaque ids). -/
-def mechDefine : MechDefine := fun existingValue d extensible =>
-  let getterObj : Option Val := d.getter.join
-  let setterObj : Option Val := d.setter.join
-  let start : Option VProp :=
-    match existingValue with
-    | none =>
-      if !extensible then none
-      else some { value := 0, writable := false, enumerable := false, configurable := false,
+def Desc.isData (d : Desc) : Bool := d.value.isSome || d.writable.isSome      -- object.go:74
+def Desc.isAccessor (d : Desc) : Bool := d.getter.isSome || d.setter.isSome   -- object.go:70
+
+/-- a plain value seen as the `valueProperty` that object.go:665 builds for it. -/
+def Elem.toVProp : Elem → VProp
+  | .prop p => p
+  | .plain v => { value := v, writable := true, enumerable := true, configurable := true,
                   accessor := false, getter := none, setter := none }
-    | some ev =>
-      let ex : VProp := match ev with
-        | .prop p => p
-        | .plain v => { value := v, writable := true, enumerable := true, configurable := true,
-                        accessor := false, getter := none, setter := none }
-      let rej1 := !ex.configurable &&
-        (flagIs d.configurable true ||
-         (match d.enumerable with | some e => e != ex.enumerable | none => false))
-      let rej2 :=
-        if (ex.accessor && d.value.isSome) || (!ex.accessor && (getterObj.isSome || setterObj.isSome)) then
-          !ex.configurable
-        else if !ex.accessor then
-          !ex.configurable && !ex.writable &&
-            (flagIs d.writable true || (match d.value with | some v => v != ex.value | none => false))
-        else
-          !ex.configurable &&
-            ((d.getter.isSome && ex.getter != getterObj) || (d.setter.isSome && ex.setter != setterObj))
-      if rej1 || rej2 then none else some ex
-  match start with
-  | none => none
-  | some ex =>
-    if flagIs d.writable true && flagIs d.enumerable true && flagIs d.configurable true && d.value.isSome then
-      some (.plain (d.value.getD 0))
-    else
-      let ex := { ex with writable := d.writable.getD ex.writable,
-                          enumerable := d.enumerable.getD ex.enumerable,
-                          configurable := d.configurable.getD ex.configurable }
-      let ex := match d.value with
-        | some v => { ex with value := v, getter := none, setter := none }
-        | none => ex
-      let ex := if d.value.isSome || d.writable.isSome then { ex with accessor := false } else ex
-      let ex := match d.getter with
-        | some g => { ex with getter := g, value := 0, accessor := true }
-        | none => ex
-      let ex := match d.setter with
-        | some s => { ex with setter := s, value := 0, accessor := true }
-        | none => ex
-      -- `if !existing.accessor && existing.value == nil { value = undefined }`: 0 encodes undefined
-      some (.prop ex)
+
+/-- object.go:673–702: the validation of a redefinition against the existing property. `true` = Reject. -/
+def mechReject (ex : VProp) (d : Desc) : Bool :=
+  (!ex.configurable &&
+    (flagIs d.configurable true ||
+     (match d.enumerable with | some e => e != ex.enumerable | none => false))) ||
+  (if (ex.accessor && d.isData) || (!ex.accessor && d.isAccessor) then
+     !ex.configurable
+   else if !ex.accessor then
+     !ex.configurable && !ex.writable &&
+       (flagIs d.writable true || (match d.value with | some v => v != ex.value | none => false))
+   else
+     !ex.configurable &&
+       ((match d.getter with | some g => ex.getter != g | none => false) ||
+        (match d.setter with | some s => ex.setter != s | none => false)))
+
+/-- object.go:705–758: applying the descriptor (value 0 encodes `undefined` / Go `nil`). -/
+def mechApply (ex : VProp) (d : Desc) : Elem :=
+  if flagIs d.writable true && flagIs d.enumerable true && flagIs d.configurable true && d.value.isSome then
+    .plain (d.value.getD 0)                                                      -- :705
+  else
+    let ex := { ex with writable := d.writable.getD ex.writable,               -- :709–717
+                        enumerable := d.enumerable.getD ex.enumerable,
+                        configurable := d.configurable.getD ex.configurable }
+    let ex := match d.value with                                                 -- :719
+      | some v => { ex with value := v, getter := none, setter := none }
+      | none => ex
+    let ex :=                                                                    -- :725–735
+      if d.isData then
+        if ex.accessor then
+          { ex with getter := none, setter := none,
+                    writable := if d.writable.isNone then false else ex.writable, accessor := false }
+        else { ex with accessor := false }
+      else ex
+    let ex := if d.isAccessor && !ex.accessor then { ex with writable := false } else ex   -- :737
+    let ex := match d.getter with                                                -- :742
+      | some g => { ex with getter := g, value := 0, accessor := true }
+      | none => ex
+    let ex := match d.setter with                                                -- :748
+      | some s => { ex with setter := s, value := 0, accessor := true }
+      | none => ex
+    .prop ex
+
+/-- object.go:650–764 `_defineOwnProperty` for string/index keys, values compared by identity
+(`SameAs` on opaque ids). A fresh property starts from the zero `valueProperty` (:662). -/
+def mechDefine : MechDefine := fun existingValue d extensible =>
+  match existingValue with
+  | none =>
+    if !extensible then none
+    else some (mechApply { value := 0, writable := false, enumerable := false, configurable := false,
+                           accessor := false, getter := none, setter := none } d)
+  | some ev => if mechReject ev.toVProp d then none else some (mechApply ev.toVProp d)
 
 /-- ValidateAndApplyPropertyDescriptor (ECMA-262 10.1.6.3), `none` = false. Value 0 = undefined. -/
 def specDefine : SpecDefine := fun current d extensible =>
